@@ -9,29 +9,42 @@ from sa import models as M
 
 
 def _level_slots(D):
-    """Slots that only repeat what ``section_id`` already encodes: in the base constructor, a slot assigned the very
-    local (the nesting level) from which the section id string is built ('.' * level).  Comparing section_id compares
-    them, so R4 does not ask for a second comparison.  Found by that data flow, whatever the slot is called."""
+    """Slots that only repeat what ``section_id`` already encodes: the nesting-depth slot.  In the base constructor it is
+    the slot S that is assigned a local computed from *the parent's* S (``parent.S + 1``, else a constant), where that
+    same local (or a local derived from it, or a call given it) also builds ``section_id``.  Comparing section_id compares
+    it, so R4 does not ask for a second comparison.  Found by that data flow, whatever the slot or the locals are called."""
     init = D.base.find_method('__init__')
     if init is None:
         return set()
     me = init.params()[0] if init.params() else 'self'
-    dots = set()
-    for n in ast.walk(init.node):
-        if isinstance(n, ast.BinOp) and isinstance(n.op, ast.Mult):
-            for side in (n.left, n.right):
-                if isinstance(side, ast.Name):
-                    dots.add(side.id)
+
+    def names(e):
+        return {x.id for x in ast.walk(e) if isinstance(x, ast.Name)}
+    assigns = [n for n in ast.walk(init.node) if isinstance(n, ast.Assign) and len(n.targets) == 1]
+    # locals computed from another object's slot
+    from_parent = {}
+    for n in assigns:
+        if isinstance(n.targets[0], ast.Name):
+            for x in ast.walk(n.value):
+                if isinstance(x, ast.Attribute) and isinstance(x.value, ast.Name) and x.value.id != me:
+                    from_parent.setdefault(n.targets[0].id, set()).add(x.attr)
     out = set()
-    id_built = False
-    for n in ast.walk(init.node):
-        if isinstance(n, ast.Assign) and len(n.targets) == 1 and isinstance(n.targets[0], ast.Attribute) \
-                and isinstance(n.targets[0].value, ast.Name) and n.targets[0].value.id == me:
-            if isinstance(n.value, ast.Name) and n.value.id in dots:
-                out.add(n.targets[0].attr)
-            if n.targets[0].attr == 'section_id' and any(isinstance(x, ast.Name) and x.id in dots for x in ast.walk(n.value)):
-                id_built = True
-    return out if id_built else set()
+    for n in assigns:
+        t = n.targets[0]
+        if isinstance(t, ast.Attribute) and isinstance(t.value, ast.Name) and t.value.id == me and isinstance(n.value, ast.Name) \
+                and t.attr in from_parent.get(n.value.id, ()):
+            lvl = n.value.id
+            derived = {lvl}
+            for _ in range(3):
+                for m in assigns:
+                    if isinstance(m.targets[0], ast.Name) and names(m.value) & derived:
+                        derived.add(m.targets[0].id)
+            for m in assigns:
+                t2 = m.targets[0]
+                if isinstance(t2, ast.Attribute) and isinstance(t2.value, ast.Name) and t2.value.id == me and t2.attr == 'section_id' \
+                        and names(m.value) & derived:
+                    out.add(t.attr)
+    return out
 
 
 def run(P, rep, tier):
